@@ -406,6 +406,22 @@ theorem stopping_descendant_not_killed_but_exiting (g : CState) (y : Nat)
     cases hs : g.t.status y <;> rw [hs] at h <;> simp [killCond, Status.toNat] at h ⊢
   simp [Tree.applyAct, this]
 
+/-- what the E-THR-MX clause `C05.subtree-dies` judges: an actor whose supervisor link is cut by somebody's
+`take_children` (the region `xstep a` at `take y`) is from then on on its way out — it sits on `a`'s
+worklist — so at rest it is Stopped (`exiting_is_stable`, `rest_exiting`) -/
+theorem cut_by_take_is_exiting (ops : List COp) (a y c : Nat) (cl : Bool) (pend : List Nat)
+    (hpc : (crun cinit ops).pc a = .term cl pend (some y)) (hc : child (crun cinit ops).t y c) :
+    (cstep (crun cinit ops) (.xstep a)).t.kids y = none ∧ Exiting (cstep (crun cinit ops) (.xstep a)) c := by
+  have hk : (cstep (crun cinit ops) (.xstep a)).t.kids y = none := by
+    show (applyAct (crun cinit ops).t (cact (crun cinit ops) (.xstep a))).kids y = none
+    simp only [cact, hpc, xact_take, Tree.applyAct]
+    exact takeChildren_closes _ _
+  refine ⟨hk, ?_⟩
+  rcases edge_step (conc_invariant ops) (.xstep a) hc with e | e | e
+  · obtain ⟨ks, hks, _⟩ := e; rw [hk] at hks; cases hks
+  · exact e
+  · simp [escStep] at e
+
 /-- the worklist iteration of the atomic model is the kill test followed by `take_children` — the two
 steps of the concurrent model, with a schedule point (`tree.take`) between them -/
 theorem visit_is_kill_then_take (t : State) (y : Nat) :
@@ -601,3 +617,4 @@ end C05
 #print axioms C05.terminate_loop_matches_source
 #print axioms C05.link_limits_match_source
 #print axioms C05.lock_regions_match_source
+#print axioms C05.cut_by_take_is_exiting
